@@ -349,7 +349,8 @@ impl<P: Part> DynPart for P {
                 cases.push(self.from_json(x).ok_or_else(|| format!("cannot parse a history case for part {}", self.name()))?);
             }
             let c = self.from_json(last).ok_or_else(|| format!("cannot parse case for part {}", self.name()))?;
-            return Ok(run_after_history(self, &cases, &c));
+            let noise = v.get("noise").and_then(|n| n.as_bool()).unwrap_or(false);
+            return Ok(run_after(self, noise, &cases, &c));
         }
         let c = self
             .from_json(v)
@@ -368,24 +369,40 @@ pub fn in_fresh_thread<T: Send>(f: impl FnOnce() -> T + Send) -> T {
 
 /// On a fresh thread: evaluate the history cases (their verdicts are ignored), then the case itself.
 pub fn run_after_history<P: Part + ?Sized>(p: &P, history: &[P::Case], c: &P::Case) -> Result<(), Fail> {
+    run_after(p, false, history, c)
+}
+
+/// On a fresh thread: the noise routine (if asked), the history cases (verdicts ignored), then the case itself.
+pub fn run_after<P: Part + ?Sized>(p: &P, noise: bool, history: &[P::Case], c: &P::Case) -> Result<(), Fail> {
     in_fresh_thread(|| {
         let mut ev = Local::new();
         ev.frozen = true;
+        if noise {
+            crate::noise::run();
+        }
         for h in history {
             let _ = run_check(p, h, &mut ev);
         }
         run_check(p, c, &mut ev).map_err(|f| {
-            if history.is_empty() {
+            if history.is_empty() && !noise {
                 f
             } else {
                 Fail::new(
                     f.sig.clone(),
-                    format!("[only after {} other case(s) of this part were evaluated on the same thread - state leaks between independent operations; alone the case passes] {}", history.len(), f.msg),
+                    format!(
+                        "[only after {}{} other case(s) of this part were evaluated on the same thread - state leaks between independent operations; alone the case passes] {}",
+                        if noise { "unrelated (partly refused) operations on the public API and " } else { "" },
+                        history.len(),
+                        f.msg
+                    ),
                 )
             }
         })
     })
 }
+
+/// every worker runs the noise routine before its first case and again after this many cases
+const NOISE_EVERY: u64 = 256;
 
 /// how many of a worker's most recent cases are kept for the history of a failure that does not reproduce alone
 const HISTORY: usize = 48;
@@ -630,12 +647,19 @@ impl Run {
                     // the worker's most recent cases, and the first failing case with the cases that preceded it
                     let recent: std::cell::RefCell<std::collections::VecDeque<P::Case>> = std::cell::RefCell::new(std::collections::VecDeque::with_capacity(HISTORY + 1));
                     let first_failure: std::cell::RefCell<Option<(Vec<P::Case>, P::Case)>> = std::cell::RefCell::new(None);
+                    let counter = std::cell::Cell::new(0u64);
                     let res = runner.run(strat, |c| {
                         if stop.load(Ordering::Relaxed) && !ev.borrow().frozen {
                             // another worker already failed: finish quickly
                             return Ok(());
                         }
                         let mut evb = ev.borrow_mut();
+                        if !evb.frozen {
+                            if counter.get() % NOISE_EVERY == 0 {
+                                crate::noise::run();
+                            }
+                            counter.set(counter.get() + 1);
+                        }
                         evb.eval();
                         let verdict = run_check(part, &c, &mut evb);
                         if !evb.frozen {
@@ -677,25 +701,29 @@ impl Run {
                                     let ff = first_failure.borrow_mut().take();
                                     let mut found = None;
                                     if let Some((hist, orig)) = ff {
+                                        let store = |noise: bool, h: &[P::Case]| json!({"noise": noise, "history": h.iter().map(|x| part.to_json(x)).collect::<Vec<_>>(), "then": part.to_json(&orig)});
                                         if let Err(f) = alone(&orig) {
                                             found = Some((f, part.to_json(&orig)));
-                                        } else if run_after_history(part, &hist, &orig).is_err() {
+                                        } else if let Err(f) = run_after(part, false, &hist, &orig) {
                                             // binary search for the shortest suffix (assumes the leak is monotone in the history)
                                             let (mut lo, mut hi) = (1usize, hist.len());
                                             while lo < hi {
                                                 let mid = (lo + hi) / 2;
-                                                if run_after_history(part, &hist[hist.len() - mid..], &orig).is_err() {
+                                                if run_after(part, false, &hist[hist.len() - mid..], &orig).is_err() {
                                                     hi = mid;
                                                 } else {
                                                     lo = mid + 1;
                                                 }
                                             }
                                             let h = &hist[hist.len() - hi..];
-                                            if let Err(f) = run_after_history(part, h, &orig) {
-                                                found = Some((f, json!({"history": h.iter().map(|x| part.to_json(x)).collect::<Vec<_>>(), "then": part.to_json(&orig)})));
-                                            } else if let Err(f) = run_after_history(part, &hist, &orig) {
-                                                found = Some((f, json!({"history": hist.iter().map(|x| part.to_json(x)).collect::<Vec<_>>(), "then": part.to_json(&orig)})));
-                                            }
+                                            found = Some(match run_after(part, false, h, &orig) {
+                                                Err(f) => (f, store(false, h)),
+                                                Ok(()) => (f, store(false, &hist)),
+                                            });
+                                        } else if let Err(f) = run_after(part, true, &[], &orig) {
+                                            found = Some((f, store(true, &[])));
+                                        } else if let Err(f) = run_after(part, true, &hist, &orig) {
+                                            found = Some((f, store(true, &hist)));
                                         }
                                     }
                                     Some(found.unwrap_or_else(|| (Fail::new("flaky", "the failing case passes when evaluated again on a fresh thread, alone and after the cases that preceded it (non-deterministic oracle, or state older than the kept history?)"), part.to_json(&c))))
@@ -791,6 +819,7 @@ impl Run {
                         if stop.load(Ordering::Relaxed) {
                             break;
                         }
+                        crate::noise::run();
                         let end = (base + chunk).min(n);
                         for i in base..end {
                             let Some(c) = make(i) else { continue };
@@ -799,7 +828,22 @@ impl Run {
                                 if known.iter().any(|k| *k == f.sig) {
                                     *ev.excluded_known.entry(f.sig.clone()).or_insert(0) += 1;
                                 } else {
-                                    failure = Some((i, f, part.to_json(&c)));
+                                    // the verdict that counts is the one a fresh thread gives: the case alone, else after the
+                                    // noise routine, else after the cases of this chunk that preceded it
+                                    let confirmed = match run_after(part, false, &[], &c) {
+                                        Err(f) => (f, part.to_json(&c)),
+                                        Ok(()) => match run_after(part, true, &[], &c) {
+                                            Err(f) => (f, json!({"noise": true, "history": [], "then": part.to_json(&c)})),
+                                            Ok(()) => {
+                                                let hist: Vec<P::Case> = (base..i).filter_map(|k| make(k)).collect();
+                                                match run_after(part, true, &hist, &c) {
+                                                    Err(f) => (f, json!({"noise": true, "history": hist.iter().map(|x| part.to_json(x)).collect::<Vec<_>>(), "then": part.to_json(&c)})),
+                                                    Ok(()) => (Fail::new("flaky", format!("the failing case ({}) passes when evaluated again on a fresh thread, alone and after the operations that preceded it", f.sig)), part.to_json(&c)),
+                                                }
+                                            },
+                                        },
+                                    };
+                                    failure = Some((i, confirmed.0, confirmed.1));
                                     stop.store(true, Ordering::Relaxed);
                                     break 'outer;
                                 }
